@@ -1,4 +1,5 @@
 import Mainchain.Model.Chain
+import Mainchain.Model.Query
 /-
 The line protocol of /verif/PROTOCOL.md : script parser, trace/digest printer and the
 interpreter loop state.  Core Lean only (compiled into `mdriver`).
@@ -241,6 +242,129 @@ def pTx? (toks : List String) : Option (Nat × Tx) := do
   let msgs ← pMsgs? body
   pure (n, { signers := signers, granter := granter, fee := fee, sig := sig, msgs := msgs })
 
+/-! ### queries (PROTOCOL.md §7) -/
+
+def hexDigit (n : Nat) : Char := if n < 10 then Char.ofNat (48 + n) else Char.ofNat (87 + n)
+def pHex (bs : List Nat) : String :=
+  if bs.isEmpty then "-" else String.ofList ((bs.map (fun b => [hexDigit (b / 16), hexDigit (b % 16)])).flatten)
+
+def pPage? (toks : List String) : Option Paginate.Req :=
+  match toks with
+  | [k, o, l, t, r] => do
+    let key ← pHex? (← kv [k] "key")
+    let off ← (← kv [o] "off").toNat?
+    let lim ← (← kv [l] "lim").toNat?
+    let tot ← match ← kv [t] "tot" with | "0" => some false | "1" => some true | _ => none
+    let rev ← match ← kv [r] "rev" with | "0" => some false | "1" => some true | _ => none
+    pure { key := key, offset := off, limit := lim, countTotal := tot, reverse := rev }
+  | _ => none
+
+def pPoToks (po : PO) : String :=
+  s!"{po.id} {tokAddrTok po.purchaser} {po.amt}{po.denom} {po.status} {po.raiseTime} {po.completionTime} {pDecisions po.decisions}"
+
+def pPageTail {α : Type} (r : Paginate.Res α) : String := s!"next={pHex r.next} total={r.total}"
+
+def pItems {α : Type} (f : α → String) (r : Paginate.Res α) : String :=
+  s!"items={dash (",".intercalate (r.items.map f))} pm=0 {pPageTail r}"
+
+def pStreamToks (r s : String) (st : Stream) : String :=
+  s!"{r} {s} {st.deposit}{st.denom} {st.rate} {st.last} {st.zero} {if st.cancellable then 1 else 0}"
+
+/-- env adjustment of a supply figure: the gov module account is part of the environment -/
+def adjCoin (s : State) (c : Coin) : Coin := { c with amt := c.amt - (s.bank.balOf Mgov c.denom : Int) }
+
+def pRegToks (r : RegState) (m : RegMeta) : String :=
+  let lim := match AL.find? r.limits m.id with | some l => toString l | none => "none"
+  match r.kind with
+  | .wrk => s!"{m.id} {tokAddrTok m.owner} {dash m.moniker} {dash m.name} {dash m.genesis} {dash m.type} {m.regTime} {m.last} {m.num} {m.lowest} {lim}"
+  | .bcn => s!"{m.id} {tokAddrTok m.owner} {dash m.moniker} {dash m.name} {m.regTime} {m.last} {m.lowest} {m.num} {lim}"
+
+/-- answer of one QUERY line: `none` = error -/
+def runQuery (tbl : List (Addr × List Nat)) (s : State) (kind : String) (args : List String) : Option String :=
+  match kind, args with
+  | "ent.po", [id] => do
+    let po ← Query.entPo s.ent (← id.toNat?)
+    pure (pPoToks po)
+  | "ent.pos", st :: pu :: page => do
+    let stv ← match ← kv [st] "status" with | "-" => some (0 : Int) | x => x.toInt?
+    let put ← pAddrTok? (← kv [pu] "purchaser")
+    let r ← Query.entPos s.ent stv put (← pPage? page)
+    pure (pItems (fun (po : PO) => toString po.id) r)
+  | "ent.wl", [] => some s!"items={dash (",".intercalate ((Query.entWl tbl s.ent).map tokAddr))}"
+  | "ent.wled", [a] => do
+    let b ← Query.entWled s.ent (← pAddrTok? a)
+    pure (if b then "1" else "0")
+  | "ent.locked", [a] => do
+    let c ← Query.entLocked s.ent (← pAddrTok? a)
+    pure s!"- {pCoin c}"
+  | "ent.spent", [a] => do
+    let c ← Query.entSpent s.ent (← pAddrTok? a)
+    pure s!"- {pCoin c}"
+  | "ent.totallocked", [] => some (pCoin s.ent.totalLocked)
+  | "ent.totalspent", [] => some (pCoin s.ent.totalSpent)
+  | "ent.totalunlocked", [] => do
+    let c ← Query.totalUnlocked s
+    pure (pCoin (adjCoin s c))
+  | "ent.entsupply", [] => do
+    let (d, locked, unlocked, total) ← Query.entSupply s
+    let env : Int := s.bank.balOf Mgov d
+    pure s!"{dash d} {locked} {unlocked - env} {total - env}"
+  | "ent.supplyof", [d] => do
+    let c ← Query.supplyOf s (undash d)
+    pure (pCoin (adjCoin s c))
+  | "bank.supplyof", [d] =>
+    if undash d = "" then none else some (pCoin (adjCoin s (Query.supplyCoin s.bank (undash d))))
+  | "ent.totalsupply", page => do
+    let r ← Query.totalSupply s (← pPage? page)
+    let cs := (r.items.map (adjCoin s)).filter (·.amt ≠ 0)
+    pure s!"coins={pCoins cs} {pPageTail r}"
+  | "wrk.chain", [id] => do
+    let m ← Query.regGet s.wrk (← id.toNat?)
+    pure (pRegToks s.wrk m)
+  | "bcn.beacon", [id] => do
+    let m ← Query.regGet s.bcn (← id.toNat?)
+    pure (pRegToks s.bcn m)
+  | "wrk.chains", mo :: ow :: page => do
+    let r ← Query.regList s.wrk (undash (← kv [mo] "moniker")) (← pAddrTok? (← kv [ow] "owner")) (← pPage? page)
+    pure (pItems (fun (m : RegMeta) => toString m.id) r)
+  | "bcn.beacons", mo :: ow :: page => do
+    let r ← Query.regList s.bcn (undash (← kv [mo] "moniker")) (← pAddrTok? (← kv [ow] "owner")) (← pPage? page)
+    pure (pItems (fun (m : RegMeta) => toString m.id) r)
+  | "wrk.block", [id, h] => do
+    let (m, rc) ← Query.regRecord s.wrk (← id.toNat?) (← h.toNat?)
+    pure s!"{m.id} {rc.key} {dash rc.h0} {dash rc.h1} {dash rc.h2} {dash rc.h3} {dash rc.h4} {rc.subTime}"
+  | "bcn.ts", [id, t] => do
+    let (m, rc) ← Query.regRecord s.bcn (← id.toNat?) (← t.toNat?)
+    pure s!"{m.id} {rc.key} {dash rc.h0} {rc.subTime}"
+  | "wrk.storage", [id] => do
+    let (o, l, u, mx, mp) ← Query.regStorage s.wrk (← id.toNat?)
+    pure s!"{tokAddrTok o} {l} {u} {mx} {mp}"
+  | "bcn.storage", [id] => do
+    let (o, l, u, mx, mp) ← Query.regStorage s.bcn (← id.toNat?)
+    pure s!"{tokAddrTok o} {l} {u} {mx} {mp}"
+  | "str.stream", [r, sn] => do
+    let rt ← pAddrTok? r
+    let stt ← pAddrTok? sn
+    let x ← Query.strGet s.str rt stt
+    pure (pStreamToks (tokAddrTok rt) (tokAddrTok stt) x.2)
+  | "str.streams", page => do
+    let r ← Query.strStreams tbl s.str (← pPage? page)
+    pure (pItems (fun (x : Query.StreamItem) => s!"{tokAddr x.1.1}/{tokAddr x.1.2}") r)
+  | "str.bysender", a :: page => do
+    let r ← Query.strBySender tbl s.str (← pAddrTok? a) (← pPage? page)
+    pure (pItems (fun (x : Query.StreamItem) => s!"{tokAddr x.1.1}/{tokAddr x.1.2}") r)
+  | "str.byreceiver", a :: page => do
+    let r ← Query.strByReceiver tbl s.str (← pAddrTok? a) (← pPage? page)
+    pure (pItems (fun (x : Query.StreamItem) => s!"{tokAddr x.1.1}/{tokAddr x.1.2}") r)
+  | "params", ["ent"] =>
+    let e := s.ent
+    let signers := dash (",".intercalate (e.params.signers.map (fun t => match t with | .empty => "" | t => tokAddrTok t)))
+    some s!"{dash e.params.denom} {e.params.minAccepts} {e.params.decisionLimit} {signers}"
+  | "params", ["wrk"] => some (pRegParams s.wrk.params)
+  | "params", ["bcn"] => some (pRegParams s.bcn.params)
+  | "params", ["str"] => some (toString s.str.fee)
+  | _, _ => none
+
 /-! ### interpreter -/
 
 structure Interp where
@@ -283,9 +407,7 @@ def genLine (c : GenCfg) (toks : List String) : Option GenCfg :=
   | _ => none
 
 /-- process one script line: new interpreter state and the trace lines it emits -/
-def step (wall : Nat) (it : Interp) (line : String) : Interp × List String :=
-  if it.halted then (it, []) else
-  let toks := (line.splitOn " ").filter (· ≠ "")
+def stepToks (wall : Nat) (it : Interp) (line : String) (toks : List String) : Interp × List String :=
   match toks with
   | [] => (it, [])
   | "G" :: rest =>
@@ -315,6 +437,17 @@ def step (wall : Nat) (it : Interp) (line : String) : Interp × List String :=
       let (n', r) := n.checkTx tx
       ({ it with node := some n' }, [s!"C {k} {outcomeStr r.outcome}", s!"c {k} {r.code}"])
     | _, _ => ({ it with halted := true }, [s!"! bad-line {line}"])
+  | "QUERY" :: k :: kind :: args =>
+    match it.node with
+    | some n =>
+      match runQuery it.cfg.addrBytes n.committed kind args with
+      | some out => (it, [s!"Q {k} ok {out}"])
+      | none => (it, [s!"Q {k} err"])
+    | none => ({ it with halted := true }, [s!"! bad-line {line}"])
+  | ["DIGEST"] =>
+    match it.node with
+    | some n => (it, digest n.committed it.nAccts)
+    | none => ({ it with halted := true }, [s!"! bad-line {line}"])
   | "GOVEXEC" :: k :: rest =>
     match k.toNat?, pMsg? 64 rest with
     | some k, some (m, []) => ({ it with govs := it.govs ++ [(k, m)] }, [])
@@ -333,6 +466,10 @@ def step (wall : Nat) (it : Interp) (line : String) : Interp × List String :=
       ({ it with node := some n' }, ["K ok"] ++ digest n'.committed it.nAccts)
     | none => ({ it with halted := true }, [s!"! bad-line {line}"])
   | _ => ({ it with halted := true }, [s!"! bad-line {line}"])
+
+/-- process one script line: tokenise, then `stepToks` -/
+def step (wall : Nat) (it : Interp) (line : String) : Interp × List String :=
+  if it.halted then (it, []) else stepToks wall it line ((line.splitOn " ").filter (· ≠ ""))
 
 /-- run a whole script -/
 def run (wall : Nat) (lines : List String) : List String :=
